@@ -212,35 +212,35 @@ def oracle(h):
                     fails.append((i, "peer Logout was not processed (on_logout %s, state %d -> %d)" % (
                         "called" if any(e[0] == 3 for e in evs) else "not called", before["st"], after["st"]), None))
             if not established:
-                cls = {7: "D15-initiator-logon-sent", 8: "D25-acceptor-stuck-logon-recv"}.get(before["st"])
+                # the Logon exchange is not complete (NETWORK_CONN_ESTABLISHED, LOGON_INITIAL_SENT, LOGON_INITIAL_RECV):
+                # nothing is delivered; anything but a Logon (and, once the exchange has begun, a Logout) drops the
+                # connection without a frame and without being counted (R8b)
                 if apps:
-                    fails.append((i, "on_message before the Logon exchange completed (state %d)" % before["st"], cls))
+                    fails.append((i, "on_message before the Logon exchange completed (state %d)" % before["st"], None))
                 elif mtype != "A":
-                    other = [w for w in wires if w[0] != "5"]
-                    if after["st"] > 3 or other:
-                        fails.append((i, "first inbound message is %s, not Logon: connection not dropped (state %d -> %d)" % (
-                            mtype, before["st"], after["st"]), cls))
+                    counted = after["nin"] != before["nin"] or after["in_rows"] != before["in_rows"]
+                    if after["st"] > 3 or wires:
+                        fails.append((i, "inbound %s before the Logon exchange completed: connection not dropped silently "
+                                         "(state %d -> %d, %d frames)" % (mtype, before["st"], after["st"], len(wires)), None))
+                    elif counted and not (mtype == "5" and before["st"] in (7, 8)):
+                        fails.append((i, "inbound %s before the Logon exchange completed was counted" % mtype, None))
                 if logons:
                     established = True
                 elif after["st"] in ESTABLISHED:
-                    established = True     # reported above (D15 / D25) unless a Logon handling anomaly
-                    if mtype == "A":
-                        fails.append((i, "session established without on_logon", None))
+                    established = True
+                    fails.append((i, "session established without on_logon (state %d -> %d)" % (before["st"], after["st"]), None))
         elif op[0] == 1:
             t = op[1][0]
             raw = t == "4" and _tag(op[1], "123") != "Y" and _tag(op[1], "43") != "Y"
             must_refuse = dead or (not established and t not in ("A", "5"))
             if must_refuse:
-                cls = "D25-acceptor-stuck-logon-recv" if before["st"] == 8 else None
                 if step[0] != 4 or evs or not same:
                     fails.append((i, "send of %s in state %d (session not established) was not refused cleanly: outcome %r" % (
-                        t, before["st"], step[0]), cls))
+                        t, before["st"], step[0]), None))
             elif step[0] == 4 and (evs or not same):
                 fails.append((i, "send refused with FIXConnectionError consumed something", None))
             if raw and step[0] == 0:
                 raw_sent = True
-            if t == "A" and step[0] == 0 and before["st"] == 6:
-                pass
         elif op[0] == 2:
             if dead and (step[0] != 4 or evs or any(before[k] != after[k] for k in ("st", "nin", "nout", "sout", "sin"))):
                 fails.append((i, "TestRequest probe on a disconnected connection was not refused cleanly", None))
